@@ -12,7 +12,10 @@ PROP = {
          'and timeout + 1 s, dial/hook/write/read/send faults, parking and releasing the reply loop in SendMessage, the receive loop '
          'in WriteTo/CheckUDP and any closer in the event logger, connection loss; every history ends with connection loss. '
          'Non-trivial: >= 2 sessions, >= 1 idle expiry or fault, and an ID reuse or a parked goroutine released after its session '
-         'closed. Distinct = distinct (config, operation sequence).',
+         'closed. Distinct = distinct (config, operation sequence). DialRacingClose (no synctest, real goroutines): 1..10 datagrams over '
+         '1..3 session IDs fed by one goroutine; the fake Hook()/UDP() of chosen datagrams blocks while 1..2 closers (cleanup(false), '
+         'cleanup(true) with a negative idle timeout) run concurrently, then 0..2000 scheduler yields, then the dial is released '
+         '(success or failure); also release-then-close and close-before-feed orders; non-trivial = a closer ran while a dial was blocked.',
  'assumptions': ['the outbound socket, hook and event logger behave like the fakes: Close() makes a blocked ReadFrom return, UDP()/Hook()/logger.New()/Close() on the socket do not block',
                  'time spent blocked inside the event logger does not count towards "closed within one sweep interval"',
                  'a session that has been idle for the timeout may be closed up to one sweep interval later even if traffic arrives in between'],
@@ -20,6 +23,11 @@ PROP = {
    {'name': 'TestVerifC07_Scripted', 'unit': 'core:server', 'kind': 'plain'},
    {'name': 'TestVerifC07_Sessions', 'unit': 'core:server', 'quick': 5000, 'thorough': 50000, 'shards': 4, 'shards_thorough': 16,
     'timeout_quick': 900, 'timeout_thorough': 3600},
+   # real goroutines, no synctest: a slow Hook()/UDP() racing cleanup(false)/cleanup(true); end-state oracle
+   {'name': 'TestVerifC07_DialRacingClose', 'unit': 'core:server', 'quick': 4000, 'thorough': 30000, 'shards': 2, 'shards_thorough': 16,
+    'timeout_quick': 900, 'timeout_thorough': 3600},
+   {'name': 'TestVerifC07_DialRacingCloseRace', 'unit': 'core:server', 'race': True, 'thorough_only': True, 'thorough': 5000, 'shards_thorough': 4,
+    'timeout_thorough': 3600},
    {'name': 'TestVerifC07_SessionsRace', 'unit': 'core:server', 'race': True, 'thorough_only': True, 'thorough': 5000, 'shards_thorough': 4,
     'timeout_thorough': 3600},
    # real client + server over loopback, UDPIdleTimeout = 2 s: wiring in server.go, real DatagramTooLargeError path
